@@ -82,6 +82,23 @@ CHECKS = {
                      'line break.',
                 note='TLC; recorder. Crashes of the (unfinished) indentation-stack logic are listed as known findings by crash site.',
                 ref='2.5, 3 C20'),
+    'C16': dict(level=MC, tech='TLA+ spec Cache (one action per step of the cache protocol + environment) model-checked by TLC; its histories replayed into the real cache (virtual clock, preemption at file operations) and validated by TLC against CacheTrace',
+                text='TLC checks Transparent/NoForeign on every reachable state of the Cache protocol (writes, time, restarts, a '
+                     'second process, eviction, removed/damaged pickles; up to 2 paths x 2 grammars x 2 dirs) and confirms that '
+                     'the pre-repair protocols are violated. All behaviours of three race-focused environments, the '
+                     'counterexamples of the old protocols and simulated histories are replayed into the real code with real '
+                     'files; TLC validates every recorded Return against the contents the file had during the call.',
+                note='TLC; fsim replay layer (one virtual clock domain; second process emulated by swapping parser_cache, its call '
+                     'atomic); mtime granularity: every write is observable as a newer mtime.', ref='2.7, 3 C16'),
+    'C17': dict(level=MC, tech='TLA+ spec Cache with Damage/CrashInStore model-checked by TLC (NeverFails); fault enumeration on the real cache validated by TLC against CacheTrace',
+                text='Design: NeverFails/Transparent with damaged pickles and crashes during store in every reachable state; the '
+                     'intolerant-load protocol is violated. Code: truncation offsets of real pickles, a corruption set, leftover '
+                     'and missing files/directories, OSError injected at each of 12 file operations in 3 phases, the 30-day '
+                     'clean-up with its lock file, and TLC histories with Damage/Crash: every call must return the current tree, '
+                     'the next fresh process must be served from the repaired pickle, clean-up must spare entries accessed '
+                     'within 30 days.',
+                note='TLC; fault wrappers in parso.cache namespace; bit flips excluded; read-only directories emulated by '
+                     'injected PermissionError.', ref='2.7, 3 C17'),
 }
 
 NOT_YET = {}
